@@ -133,12 +133,12 @@ func Discharge(fr *FuncResult, dir string, batchMs, singleMs int, stats *SolveSt
 		want := "unsat"
 		if o.Cover {
 			// vacuity check: unsat is the bad answer
-			if a == "unsat" {
-				o.Result = "vacuous"
-			} else {
-				o.Result = "proved"
-			}
+			o.Result = "proved"
 			o.Solver = solvers[0].Name
+			if a == "unsat" {
+				// confirm with a fresh single-shot run of the portfolio
+				single(fr, o, base, i, singleMs, stats, false)
+			}
 			continue
 		}
 		if a == want {
